@@ -22,8 +22,12 @@ TRUSTED = C04.TRUSTED + [
     "what was written = the super-reads and components recorded by the WHATSHAP_VERIF_TRACE hook of whatshap phase",
 ]
 ASSUMPTIONS = [
-    "C09_decode_encode_HP and the repaired-writer theorems speak about diploid, bi-allelic phase tuples ((0,1) or (1,0)): "
+    "C09_decode_encode_HP and the file-level theorems speak about diploid, bi-allelic phase tuples ((0,1) or (1,0)): "
     "the HP encoding indexes haplotypes by allele number and cannot represent anything else",
+    "C09_decode_written: each chromosome forms one run, target samples exist, calls are pysam-shaped (a GT value has at "
+    "least one allele), the reader gets the writer's only_snvs/mav and accepts the file; VcfReader rejects any file "
+    "that mixes the two encodings, also between samples, so histories draw a --sample subset only while the other "
+    "samples carry no phase",
     "phase sets fit under the coverage cap (generated files have < 7 overlapping sets)",
 ]
 
